@@ -37,7 +37,7 @@ def main():
             out = f"/tmp/ev/out/rc_{name}"
             shutil.rmtree(out, ignore_errors=True)
             os.makedirs(out)
-            r = sh(f"cd /verif && VERIF_REPO_SRC={wt}/src VERIF_OUT={out} timeout 3000 /venv/bin/python -m vf.run {c} --tier quick")
+            r = sh(f"cd {os.environ.get('VERIF_DIR', '/verif')} && VERIF_REPO_SRC={wt}/src VERIF_OUT={out} timeout 3000 /venv/bin/python -m vf.run {c} --tier quick")
             keys = [json.load(open(f))["key"] for f in sorted(glob.glob(out + "/replays/*.json"))]
             results[c] = {"exit": r.returncode, "violations": len(keys), "keys": keys[:4]}
             shutil.rmtree(out, ignore_errors=True)
